@@ -191,10 +191,11 @@ var vp8Convs = func() []struct{ flag, name string } {
 }()
 
 type vp8Run struct {
-	rep    *Report
-	kept   map[string][]Finding
-	totals map[string]int
-	phase  map[string]float64
+	rep     *Report
+	kept    map[string][]Finding
+	totals  map[string]int
+	phase   map[string]float64
+	stopped bool // a Go decode hung: finish up and return the report
 }
 
 func (v *vp8Run) add(f Finding) {
@@ -219,9 +220,39 @@ func (v *vp8Run) batch(all []vp8Case, infoAll bool) error {
 	goOut := make([]string, len(all))
 	goPanic := make([]string, len(all))
 	parallelDo(len(all), func(i int) {
-		goOut[i], goPanic[i] = guard(func() string { return goVP8(all[i].payload) })
+		goOut[i], goPanic[i] = guardT(func() string { return goVP8(all[i].payload) })
 	})
 	v.phase["go-decode"] += time.Since(t0).Seconds()
+	if hangSeen.Load() {
+		// a decode did not return: file it (with the specification's verdict on the same bytes) and let
+		// the suite finish up - the spinning goroutine cannot be recovered
+		var hl []string
+		var hi []int
+		for i := range all {
+			if goOut[i] == "hang" {
+				hi = append(hi, i)
+				hl = append(hl, "vp8 "+hx(all[i].payload))
+			}
+		}
+		lo, err := RunDriver(hl)
+		if err != nil {
+			return err
+		}
+		for k, i := range hi {
+			c := all[i]
+			in := map[string]any{"op": "vp8", "hex": hx(c.payload), "kind": c.kind, "config": c.desc}
+			v.add(hangFinding("DecodeFrame", "lossy.DecodeFrame ("+c.kind+" "+c.desc+")", in))
+			if strings.HasPrefix(lo[k], "ok ") {
+				v.add(Finding{Kind: "property", Property: "C04", Signature: "vp8-accept:go-hang-spec-ok",
+					Detail: fmt.Sprintf("the specification decodes the frame, lossy.DecodeFrame does not return (%s %s): spec=%q", c.kind, c.desc, lo[k]), Input: in})
+			}
+			rep.Eval(true, c.payload)
+			rep.Count("outcome:go-hang")
+		}
+		v.stopped = true
+		rep.Notes = append(rep.Notes, "suite stopped early: a Go decode call did not return (see the hang finding)")
+		return nil
+	}
 	t0 = time.Now()
 	lines := make([]string, len(all))
 	for i, c := range all {
@@ -278,6 +309,12 @@ func (v *vp8Run) batch(all []vp8Case, infoAll bool) error {
 		gOK, lOK := strings.HasPrefix(g, "ok "), strings.HasPrefix(l, "ok ")
 		rep.Count("kind:" + c.kind)
 		rep.Eval(l != "err header" && l != "bad-op", c.payload)
+		if k := strings.Index(c.desc, " pad=part"); k >= 0 && c.kind == "syn" {
+			rep.Count("syn:padded-non-final-partition:" + strings.SplitN(c.desc[k+1:], ":", 2)[1] + ":" + strings.SplitN(l, " ", 2)[0])
+		}
+		if c.kind == "enc" && len(c.payload) > 1<<17 {
+			rep.Count("enc:payload>128KiB:parts=" + vp8InfoField(info[i], "parts"))
+		}
 		if infoAll && lOK {
 			in := info[i]
 			rep.Count(c.kind + ":" + vp8Class(in))
@@ -444,6 +481,25 @@ func vp8EncCases(seed uint64, tier string) []func() (vp8Case, []byte) {
 		o.FilterType = (k + 1) % 2
 		gens = append(gens, mk(0x900000+uint64(k), 320, 320, []int{ClsPhoto, ClsNoise, ClsGradient, ClsPal16}[k%4], AlphaNone, o))
 	}
+	// token partitions of 64 KiB and more (the 24-bit entries of the partition-size table need their
+	// third byte): a 512x512 noise picture at quality 95 has about 240 KB of tokens. Quick: 2
+	// partitions; thorough: 2, 4 and 8 (quality 100 so that every one of 4 partitions is that large).
+	bigParts := []int{1}
+	if tier == "thorough" {
+		bigParts = []int{1, 2, 3}
+	}
+	for _, pp := range bigParts {
+		o := webp.DefaultOptions()
+		o.Quality = 95
+		if pp > 1 {
+			o.Quality = 100
+		}
+		o.Method = 2
+		o.Segments = 1 + pp
+		o.Partitions = pp
+		o.FilterStrength = []int{0, 30, 60, 20}[pp]
+		gens = append(gens, mk(0x910000+uint64(pp), 512, 512, ClsNoise, AlphaNone, o))
+	}
 	return gens
 }
 
@@ -542,6 +598,22 @@ func vp8TablesLine() string {
 func suiteVP8(rep *Report) error {
 	rep.Rule = "frames: (a) VP8 payloads of webp.Encode lossy outputs over colour class x size (1x1 … 100x20, 320x320) x Quality {0,20,50,75,90,100} x Method 0..6 x Segments 1..4 x Partitions 0..3 x FilterStrength {0,20,60,100} x FilterSharpness {0,3,7} x FilterType {0,1} x SNS {0,50,100} (quality x method walked, the rest drawn); (b) lossy testdata files and corpus/vp8/*.hex; (c) frames of a random VP8 writer (segment maps with absolute/delta quantiser and filter values, both filters with deltas and any sharpness, 1/2/4/8 partitions, skip flags, all 5/10/4 intra modes uniformly, arbitrary tokens incl. categories 3-6 and zero runs, probability updates); (d) mutations of (a)-(c): bit flips, byte sets, truncations, fills, appended bytes, first-partition-size edits. Each frame is decoded by lossy.DecodeFrame (planes cropped as the public API does) and by the Lean spec decoder Webp.Spec.VP8.decode; lines (ok w h plane digests | err) are compared: ok-vs-err and planes; (e) lossy+alpha encoder outputs: webp.Decode NRGBA pixels vs the spec's fancy upsampling + YUV->RGB (op vp8nrgba) of the same VP8 payload with Go's decoded alpha plane; (f) constant tables Go vs Lean (op vp8tables). non-trivial = the spec decoder got past the 10-byte frame header; distinct = FNV of the payload"
 	v := &vp8Run{rep: rep, kept: map[string][]Finding{}, totals: map[string]int{}, phase: map[string]float64{}}
+	finish := func() error {
+		rep.Extra["finding_totals"] = v.totals
+		rep.Extra["phase_s"] = v.phase
+		var keys []string
+		for k := range v.kept {
+			keys = append(keys, k)
+		}
+		sort.Strings(keys)
+		for _, k := range keys {
+			for _, f := range v.kept[k] {
+				rep.Add(f)
+			}
+		}
+		sortFindings(rep)
+		return nil
+	}
 
 	// (f) tables
 	tl, err := RunDriver([]string{"vp8tables"})
@@ -613,6 +685,9 @@ func suiteVP8(rep *Report) error {
 	if err := v.batch(valid, true); err != nil {
 		return err
 	}
+	if v.stopped {
+		return finish()
+	}
 
 	// (e) NRGBA of lossy+alpha files
 	t0 = time.Now()
@@ -620,6 +695,9 @@ func suiteVP8(rep *Report) error {
 		return err
 	}
 	v.phase["nrgba"] = time.Since(t0).Seconds()
+	if v.stopped {
+		return finish()
+	}
 
 	var pool []vp8Case
 	for _, c := range valid {
@@ -652,6 +730,9 @@ func suiteVP8(rep *Report) error {
 		if err := v.batch(syn, true); err != nil {
 			return err
 		}
+		if v.stopped {
+			return finish()
+		}
 	}
 	for off := 0; off < nMut && len(pool) > 0; off += batchSize {
 		n := mini(batchSize, nMut-off)
@@ -665,22 +746,12 @@ func suiteVP8(rep *Report) error {
 		if err := v.batch(mut, false); err != nil {
 			return err
 		}
-	}
-
-	rep.Extra["finding_totals"] = v.totals
-	rep.Extra["phase_s"] = v.phase
-	var keys []string
-	for k := range v.kept {
-		keys = append(keys, k)
-	}
-	sort.Strings(keys)
-	for _, k := range keys {
-		for _, f := range v.kept[k] {
-			rep.Add(f)
+		if v.stopped {
+			return finish()
 		}
 	}
-	sortFindings(rep)
-	return nil
+
+	return finish()
 }
 
 // nrgba compares webp.Decode of lossy+alpha files with the spec's upsampling + conversion.
@@ -709,12 +780,36 @@ func (v *vp8Run) nrgba(cases []vp8Case, files [][]byte) error {
 		if !ok {
 			continue
 		}
-		plane, err := verifapi.DecodeAlpha(fr.AlphaData, w, h)
-		if err != nil {
+		var plane []byte
+		var img image.Image
+		var aerr error
+		st, pm := guardT(func() string {
+			plane, aerr = verifapi.DecodeAlpha(fr.AlphaData, w, h)
+			if aerr != nil {
+				return "alpha-err"
+			}
+			img, err = webp.Decode(bytes.NewReader(f))
+			return "done"
+		})
+		if st == "hang" || st == "panic" || st == "skipped" {
+			in := map[string]any{"op": "vp8nrgba", "hex": hx(fr.Data), "alpha": hx(fr.AlphaData), "file": short(hx(f), 8000)}
+			switch st {
+			case "hang":
+				v.add(hangFinding("Decode", "webp.Decode / DecodeAlpha of an encoder output with alpha ("+cases[i].desc+")", in))
+				v.add(Finding{Kind: "property", Property: "C04", Signature: "vp8-nrgba:decode-hang", Detail: "webp.Decode does not return on an encoder output with alpha (" + cases[i].desc + ")", Input: in})
+			case "panic":
+				v.add(Finding{Kind: "property", Property: "C05", Signature: "panic:Decode:" + panicClass(pm), Detail: "webp.Decode / DecodeAlpha panicked on an encoder output: " + pm + " (" + cases[i].desc + ")", Input: in})
+			}
+			if hangSeen.Load() {
+				v.stopped = true
+				break
+			}
+			continue
+		}
+		if aerr != nil {
 			rep.Count("nrgba:alpha-decode-failed")
 			continue
 		}
-		img, err := webp.Decode(bytes.NewReader(f))
 		if err != nil {
 			v.add(Finding{Kind: "property", Property: "C04", Signature: "vp8-nrgba:decode-error", Detail: "webp.Decode failed on an encoder output with alpha: " + err.Error() + " (" + cases[i].desc + ")",
 				Input: map[string]any{"op": "vp8nrgba", "hex": hx(fr.Data), "alpha": hx(plane)}})
